@@ -288,7 +288,7 @@ def run_ifoutput(cfg, acc):
                       cfg=cfg)
         nii = getattr(edzed, 'IfNotIitialized', None)
     for ref_style in ('object', 'name', 'not_name'):
-        for ctl_vals in ([0, 1, '', 'x', None, 2.5, False, True, 0],):
+        for ctl_vals in ([0, 1, '', 'x', None, 2.5, False, True, {'k': 1, 'value': 'forged'}, {}, [0], [], 0],):
             log = []
             with Sim() as sim:
                 probe = Probe('probe', log=log)
@@ -314,7 +314,11 @@ def run_ifoutput(cfg, acc):
                     del task
                 sim.run(driver())
             acc.execs += 1
-            got = [d['value'] for (_t, _n, _e, d) in log if d['value'] != 0]
+            got = [d.get('value') for (_t, _n, _e, d) in log if d.get('value') != 0]
+            for (_t, _n, _e, d) in log:
+                if set(d) != {'previous', 'value', 'source', 'trigger'} or d.get('source') != 'src':
+                    acc.violation('C16:ifoutput-data', f"IfOutput({ref!r}) is a gate only, but the "
+                                  f"destination received {d}", cfg=cfg)
             acc.outcome(('ifoutput', ref_style, tuple(got)))
             acc.state(('ifoutput', ref_style))
             if got != exp:
